@@ -118,7 +118,7 @@ pub fn ctx_push_op(text: &str, first: bool) {
 fn is_memory_kind(kind: &str) -> bool {
     matches!(
         kind,
-        "use-after-free" | "double-free" | "bad-free-size" | "arena-out-of-block" | "wild-access" | "abort" | "stale-access" | "internal-panic" | "held-handle-dangling" | "crash"
+        "use-after-free" | "double-free" | "bad-free-size" | "bad-free-align" | "arena-out-of-block" | "wild-access" | "abort" | "stale-access" | "internal-panic" | "held-handle-dangling" | "crash"
     )
 }
 
@@ -166,6 +166,10 @@ pub fn attribute(kind: &str, out: &mut [&'static str; 6]) -> usize {
             if consuming {
                 push("C12", &mut n);
             }
+        }
+        if matches!(kind, "bad-free-size" | "bad-free-align") {
+            // memory handed back with a layout other than the one it was allocated with
+            push("C04", &mut n);
         }
         if is_memory_kind(kind) {
             if alloc::IN_WEAK.load(Relaxed) {
